@@ -764,7 +764,7 @@ func (r *foRun) construct() {
 			Name: "fo", Backend: beWrap{r: r, real: r.be.plain},
 			FailedUpdateTTL: dur(sc.Cfg.FailedUpdateTTLNs), UpdateTTL: dur(sc.Cfg.UpdateTTLNs),
 			SyncUpdate: sc.Cfg.SyncUpdate, SyncRead: sc.Cfg.SyncRead, MaxStaleness: dur(sc.Cfg.MaxStalenessNs),
-			FailHard: sc.Cfg.FailHard, Logger: logger, Stats: stats, ObserveMutability: sc.Cfg.ObserveMutability && stats != nil,
+			FailHard: sc.Cfg.FailHard, Logger: logger, Stats: stats, ObserveMutability: sc.Cfg.ObserveMutability,
 		}.Use)
 		r.api = anyAPI{f: f, rep: sc.ValRep}
 		e.cleanup = append(e.cleanup, r.stopAPI)
@@ -781,7 +781,7 @@ func (r *foRun) construct() {
 			Name: "fo", Backend: beWrapOf{r: r, real: r.be.gen},
 			FailedUpdateTTL: dur(sc.Cfg.FailedUpdateTTLNs), UpdateTTL: dur(sc.Cfg.UpdateTTLNs),
 			SyncUpdate: sc.Cfg.SyncUpdate, SyncRead: sc.Cfg.SyncRead, MaxStaleness: dur(sc.Cfg.MaxStalenessNs),
-			FailHard: sc.Cfg.FailHard, Logger: logger, Stats: stats, ObserveMutability: sc.Cfg.ObserveMutability && stats != nil,
+			FailHard: sc.Cfg.FailHard, Logger: logger, Stats: stats, ObserveMutability: sc.Cfg.ObserveMutability,
 		}.Use)
 		r.api = genAPI{f}
 		e.cleanup = append(e.cleanup, r.stopAPI)
@@ -794,7 +794,7 @@ func (r *foRun) construct() {
 			Name: "fo", Backend: beWrap{r: r, real: r.be.plain},
 			FailedUpdateTTL: dur(sc.Cfg.FailedUpdateTTLNs), UpdateTTL: dur(sc.Cfg.UpdateTTLNs),
 			SyncUpdate: sc.Cfg.SyncUpdate, SyncRead: sc.Cfg.SyncRead, MaxStaleness: dur(sc.Cfg.MaxStalenessNs),
-			FailHard: sc.Cfg.FailHard, Logger: logger, Stats: stats, ObserveMutability: sc.Cfg.ObserveMutability && stats != nil,
+			FailHard: sc.Cfg.FailHard, Logger: logger, Stats: stats, ObserveMutability: sc.Cfg.ObserveMutability,
 		}.Use)
 		r.api = plainAPI{f: f, rep: sc.ValRep}
 		e.cleanup = append(e.cleanup, r.stopAPI)
